@@ -82,6 +82,7 @@ class Outcome:
         self.built: Any = None
         self.build_exc: Optional[BaseException] = None
         self.invoker: Optional[int] = None
+        self.cache_path: Optional[str] = None
 
 
 def make_executor(b: Any, sel: Optional[Dict[str, Any]]) -> Any:
@@ -104,6 +105,15 @@ def execute(case: Dict[str, Any], M: Optional[Model] = None, built: Any = None, 
     P = case["prog"]
     out = Outcome()
     args = [dec(a) for a in case.get("args", [])]
+    if case.get("derive") == "cache" and built is None and pre is None:
+        # the observed run restarts from a cache file written by an earlier (unobserved) run restricted to some
+        # targets: those sites and their ancestors are taken from the file, everything else is scheduled as usual
+        R0 = prog.Ref()
+        prog.ref_run(P, args, R0)
+        keep: Set[str] = set()
+        for t_ in case.get("cached", []):
+            keep |= {t_} | M.anc[t_]
+        pre = {s: R0.values[s] for s in keep}
     R = prog.Ref(failing=case.get("failing", ()), selected=M.selected, run_debug=bool(case.get("debug")), pre=pre)
     try:
         out.ref_value = prog.ref_run(P, args, R)
@@ -171,6 +181,24 @@ def execute(case: Dict[str, Any], M: Optional[Model] = None, built: Any = None, 
                 b = prog.Built(b.prog, b.dag.compose("CMP", [], [ids_[s] for s in M.sites], max_concurrency=M.mc), b.xns, b.subs)
             out.built = b
             target: Any = b.dag
+            if case.get("derive") == "cache" and built is None:
+                import os
+                import tempfile
+
+                fd, cpath = tempfile.mkstemp(prefix="vlib_sched_cache_", suffix=".pkl")
+                os.close(fd)
+                try:
+                    ids_ = b.node_ids()
+                    first = b.dag.executor(target_nodes=[ids_[s] for s in case.get("cached", [])], cache_in=cpath)
+                    if case.get("async"):
+                        asyncio.run(first(*args))
+                    else:
+                        first(*args)
+                    target = b.dag.executor(from_cache=cpath)
+                    out.cache_path = cpath
+                except BaseException:
+                    os.remove(cpath)
+                    raise
             if case.get("derive") == "executor" and not (case.get("sel") and any(case["sel"].get(k) is not None for k in "TXR")) \
                     and case.get("call") != "setup":
                 target = b.dag.executor()  # dag.executor()(...) instead of dag(...)
@@ -224,6 +252,13 @@ def execute(case: Dict[str, Any], M: Optional[Model] = None, built: Any = None, 
                 raise
             out.exc = e
     finally:
+        if out.cache_path:
+            import os
+
+            try:
+                os.remove(out.cache_path)
+            except OSError:
+                pass
         tawazi.cfg.RUN_DEBUG_NODES = old_dbg
         tawazi.cfg.TAWAZI_PROFILE_ALL_NODES = old_prof
     return out
